@@ -795,10 +795,10 @@ impl Arena {
     let mut allocated = header.allocated.load(Ordering::Acquire);
 
     loop {
-      let want = allocated + size;
-      if want > self.cap {
-        break;
-      }
+      let want = match allocated.checked_add(size) {
+        Some(want) if want <= self.cap => want,
+        _ => break,
+      };
 
       match header.allocated.compare_exchange_weak(
         allocated,
@@ -944,10 +944,13 @@ impl Arena {
     let want = loop {
       let aligned_offset = align_offset::<T>(allocated);
       let size = mem::size_of::<T>() as u32;
-      let want = aligned_offset + size + extra;
-      if want > self.cap {
-        break size + extra;
-      }
+      let want = match aligned_offset
+        .checked_add(size)
+        .and_then(|want| want.checked_add(extra))
+      {
+        Some(want) if want <= self.cap => want,
+        _ => break size.saturating_add(extra),
+      };
 
       match header.allocated.compare_exchange_weak(
         allocated,
@@ -981,7 +984,7 @@ impl Arena {
           });
         }
         Freelist::Optimistic => {
-          match self.alloc_slow_path_optimistic(Self::pad::<T>() as u32 + extra) {
+          match self.alloc_slow_path_optimistic((Self::pad::<T>() as u32).saturating_add(extra)) {
             Ok(mut bytes) => {
               bytes.align_bytes_to::<T>();
               return Ok(Some(bytes));
@@ -994,7 +997,7 @@ impl Arena {
           }
         }
         Freelist::Pessimistic => {
-          match self.alloc_slow_path_pessimistic(Self::pad::<T>() as u32 + extra) {
+          match self.alloc_slow_path_pessimistic((Self::pad::<T>() as u32).saturating_add(extra)) {
             Ok(mut bytes) => {
               bytes.align_bytes_to::<T>();
               return Ok(Some(bytes));
